@@ -5,6 +5,7 @@
   advances by the struct's `width()`, a constant for a struct of static size.  Everything else is `Pdlv.Java.decItem`.
 -/
 import Pdlv.Java
+import Pdlv.Static
 
 namespace Pdlv
 namespace Java
@@ -86,6 +87,17 @@ theorem decodeFullS_eq (c : Cfg) (nm : String) (items : Items) (hw : decWfItems2
     · rfl
   | err e => rfl
   | panic h => rfl
+
+/-- the class of the parser theorem plus struct-typed fields: the struct has no payload, a static size that is the one
+    annotated, and own fields in the class -/
+def decWfItems3 : Items → Bool
+  | .nil => true
+  | .cons (.typedef _ (.struct _ (.root _ sitems)) (some k)) r =>
+    decWfItems2 sitems && !sitems.hasPayload && staticItems sitems == some k && localWfItems sitems && decWfItems3 r
+  | .cons (.typedef ..) _ => false
+  | .cons (.optional ..) _ => false
+  | .cons i r => decWfItems2 (.cons i .nil) && decWfItems3 r
+
 
 /-! ### the serializer: `buf.put(x.toBytes())` for a struct-typed field -/
 
